@@ -110,7 +110,12 @@ def build_for(spec, builder):
                 fo.deps.append(builder.gen_recorder())
             fobjs.append(fo)
         fobjs += builder.repo_lib("fuzz")
-        fexe = builder.exe(os.path.splitext(spec.harness)[0] + "_fuzz", fobjs, "fuzz", libs=["-lrapidcheck"])
+        flibs = ["-lrapidcheck"]
+        if "ref" in spec.needs:
+            flibs += ["-L" + builder.refdir, "-lref", "-Wl,-rpath," + builder.refdir]
+        fexe = builder.exe(os.path.splitext(spec.harness)[0] + "_fuzz", fobjs, "fuzz", libs=flibs)
+        if "ref" in spec.needs and builder.reflib() not in fexe.deps:
+            fexe.deps.append(builder.reflib())
         wanted.append(fexe)
     if "makedsp1" in spec.needs:
         # the repository's own assembler tool, built unmodified as its own executable
